@@ -135,7 +135,42 @@ pub fn write_doc(top: &[Node], st: &mut Style) -> String {
                 "<?xml version=\"1.0\" encoding=\"windows-1252\" standalone=\"no\"?>",
                 "<?xml encoding=\"latin1\"?>",
             ])),
-            Node::Misc if !seen_root && st.rng.chance(1, 3) => out.push_str("<!DOCTYPE r [ <!ELEMENT r ANY> ]>"),
+            Node::Misc if !seen_root && st.rng.chance(1, 3) => {
+                // a document type declaration; half of them with an internal subset that talks about
+                // the document's own elements and attributes (defaults, #IMPLIED, #REQUIRED, #FIXED,
+                // entities used in the texts): none of it may influence the inferred structure
+                if st.rng.chance(1, 2) {
+                    out.push_str("<!DOCTYPE r [ <!ELEMENT r ANY> ]>");
+                } else {
+                    fn pairs(n: &Node, acc: &mut Vec<(String, Vec<String>)>) {
+                        if let Node::Elem { name, attrs, kids, .. } = n {
+                            acc.push((name.clone(), attrs.clone()));
+                            for k in kids {
+                                pairs(k, acc);
+                            }
+                        }
+                    }
+                    let mut acc = vec![];
+                    for t in top {
+                        pairs(t, &mut acc);
+                    }
+                    let root = acc.first().map(|x| x.0.clone()).unwrap_or("r".into());
+                    let mut d = format!("<!DOCTYPE {} [\n<!ENTITY company \"ACME\">\n<!ENTITY nbsp \"&#160;\">\n", root);
+                    for (e, attrs) in acc.iter().take(6) {
+                        d.push_str(&format!("<!ELEMENT {} ANY>\n", e));
+                        for a in attrs.iter().take(3) {
+                            let kind = *st.rng.pick(&["#IMPLIED", "#REQUIRED", "\"dflt\"", "#FIXED \"v\""]);
+                            d.push_str(&format!("<!ATTLIST {} {} CDATA {}>\n", e, a, kind));
+                        }
+                        if st.rng.chance(1, 3) {
+                            // an attribute the document never uses, with a default
+                            d.push_str(&format!("<!ATTLIST {} undeclared CDATA \"x\">\n", e));
+                        }
+                    }
+                    d.push_str("]>");
+                    out.push_str(&d);
+                }
+            }
             Node::Text if st.no_blank_text => {}
             Node::Text => out.push_str(*st.rng.pick(&["\n", " ", "\n\n  "])),
             Node::Elem { .. } => {
